@@ -391,7 +391,9 @@ func (i *insertExecutor) parsePkValuesFromStatement(insertStmt *ast.InsertStmt, 
 					for i := range row {
 						r := row[i]
 						rStr, ok := r.(string)
-						if i < pkIndex && ok && !strings.EqualFold(rStr, sqlPlaceholder) {
+						// every value before the key that is not a placeholder: a string literal or, as the
+						// parser delivers numbers, a value of another type
+						if i < pkIndex && !(ok && strings.EqualFold(rStr, sqlPlaceholder)) {
 							currentRowNotPlaceholderNumBeforePkIndex++
 						}
 					}
